@@ -619,6 +619,12 @@ def match_f1301(f: dict) -> bool:
 
 def match_f1302(f: dict) -> bool:
     """F1302: the wake-up touch of process_peering_event after the lifetime=0 withdrawal."""
+    if f['sig'] == 'net-zombie-record-written-after-withdrawal':
+        # the consequence, recognised by its cause: the surviving record IS that post-withdrawal touch of the same incarnation
+        w = f['case'].get('post_withdrawal_touch')
+        rec = (f.get('observed') or {}).get('record')
+        return bool(w) and w['from'] == 'process_peering_event' and w['operator'] == f['case']['operator'] \
+            and w['patch'].get('status', {}).get(w['operator']) is not None and rec is not None and rec[2] == w['at_ms']
     if f['sig'] != 'net-write-after-exit':
         return False
     w = f['case']['write']
